@@ -167,6 +167,9 @@ class RangeMonitor(object):
                 ok = False
             if not ok:
                 ctx.count("L2.range-invariant.broken(soft)")
+                if len(ctx.notes) < 8:
+                    ctx.note("L2 range invariant broken: %s %r items=%r limits=%r" % (
+                        type(self).__name__, getattr(self, "_description", None), items, (getattr(self, "_lower_limit", "?"), getattr(self, "_upper_limit", "?"))))
             return True
 
         try:
